@@ -65,7 +65,12 @@ func drawVaddr(t *rapid.T, placed []addrRange, length uint64, class64 bool, over
 	if len(placed) > 0 && uniformInt(t, 4, label+"adj") == 0 {
 		return placed[uniformInt(t, len(placed), label+"adjto")].hi // adjacent
 	}
-	return base + uint64(uniformInt(t, 64, label+"slot"))*0x2000
+	a := base + uint64(uniformInt(t, 64, label+"slot"))*0x2000
+	if uniformInt(t, 8, label+"unaligned") == 0 {
+		// nothing in the loader or the parser requires aligned addresses
+		a += uint64(1 + uniformInt(t, 3, label+"misalign"))
+	}
+	return a
 }
 
 func rangesOverlap(rs []addrRange) bool {
